@@ -26,11 +26,14 @@ import (
 )
 
 type Case struct {
-	Rsize  int
-	Mpm    bool
-	Src    string
-	Plans  []Plan
-	InVals []uint64 // constant value offered on the external input with global id i
+	// ShowReq: every run of the compiler also gets -show-requirements; one more run without it must write
+	// the same assembly and machine
+	ShowReq bool `json:",omitempty"`
+	Rsize   int
+	Mpm     bool
+	Src     string
+	Plans   []Plan
+	InVals  []uint64 // constant value offered on the external input with global id i
 	// Strict: judge the recorded-finding classes too (files under replays/C12/known/). When false a
 	// failure whose recorded precondition holds for the case is counted as Excluded.
 	Strict bool `json:",omitempty"`
@@ -45,6 +48,7 @@ const (
 	sigNondet    = "nondeterministic-output"
 	sigHoist     = "D-C12-incdec-written-to-outer-context"
 	sigJe        = "D-C12-eq-compiled-to-placeholder-je"
+	sigBehindJe  = "semantics-differ-behind-je"
 	sigMultiRet  = "D-C12-multiple-returns"
 	sigGoValue   = "D-C12-go-value-arg-empty-rom"
 	sigShLinks   = "D-C12-shared-links-map-order"
@@ -109,6 +113,8 @@ func genCase(o GenOpts) func(t *rapid.T) Case {
 			c.Rsize = []int{8, 16, 32, 64}[2*b2i(rapid.Bool().Draw(t, "w1"))+b2i(rapid.Bool().Draw(t, "w0"))]
 		}
 		c.Src, c.Mpm = GenProgram(t, o, c.Rsize)
+		// (the report is computed before the machine is built: it matters most with -mpm -save-bondmachine)
+		c.ShowReq = rapid.IntRange(0, 7).Draw(t, "showreq") < map[bool]int{true: 4, false: 1}[c.Mpm]
 		c.Plans = genPlans(t)
 		c.HDL = rapid.Bool().Draw(t, "hdl1") && rapid.Bool().Draw(t, "hdl2") && rapid.Bool().Draw(t, "hdl3") // one in eight of the faithful machines
 		c.InVals = make([]uint64, 16)
@@ -211,6 +217,13 @@ func prop(c Case) pbt.Outcome {
 
 	// ---- (i) termination, one child process per plan (in parallel: the verdict of each run depends on
 	// the case only, unless the compiler itself is schedule-dependent — which is the property)
+	if c.ShowReq {
+		ps := append([]Plan(nil), c.Plans...)
+		for i := range ps {
+			ps[i].ShowReq = true
+		}
+		c.Plans = ps
+	}
 	runs := make([]RunResult, len(c.Plans))
 	var wg sync.WaitGroup
 	sem := make(chan struct{}, 8)
@@ -282,6 +295,24 @@ func prop(c Case) pbt.Outcome {
 		}
 	}
 	lab(fmt.Sprintf("plans-completed=%d", len(done)))
+	if c.ShowReq {
+		// -show-requirements is a report: the same compilation without it must write the same files
+		lab("flag:show-requirements")
+		p0 := c.Plans[done[0]]
+		p0.ShowReq = false
+		plain := RunBondgo(c.Src, c.Rsize, c.Mpm, p0)
+		if plain.Status == "ok" && base.Status == "ok" {
+			same := string(plain.Machine) == string(base.Machine) && len(plain.Asm) == len(base.Asm)
+			for k, a := range base.Asm {
+				if plain.Asm[k] != a {
+					same = false
+				}
+			}
+			if !same {
+				return finish(pbt.Outcome{Fail: pbt.Failf("show-requirements-changes-artefacts", "the assembly/machine written with -show-requirements differ from the ones written without it\n--- source\n%s--- with the flag\nmachine=%s\n--- without\nmachine=%s", c.Src, base.Machine, plain.Machine)})
+			}
+		}
+	}
 
 	out := pbt.Outcome{}
 	if d8 {
@@ -449,12 +480,27 @@ func prop(c Case) pbt.Outcome {
 				}
 			}
 			ticks := 20*rr.Evals + 200
-			got, executed, serr := Simulate(p.Mach, inputs, ticks)
+			got, executed, serr := Simulate(p.Mach, inputs, ticks, nil)
 			mismatch, _, n := compare(rr, got, fmt.Sprintf("%d instructions", executed))
 			if serr != nil {
 				mismatch = "simulation stopped: " + serr.Error()
 			}
 			total += n
+			if mismatch != "" && eqTrue > 0 && len(facts.HoistedIncDec)+len(facts.DefineIgnored)+len(facts.LeakDecl)+len(facts.DefineMemShadow)+len(facts.MultiReturn) == 0 {
+				// the only recorded finding that applies is je (== compiled to a placeholder). Run the same
+				// ROM again with je executed as the compiler means it: a difference that remains is not
+				// explained by the recorded finding.
+				got2, executed2, serr2 := Simulate(p.Mach, inputs, ticks, asmLines(base.Asm[k]))
+				m2, _, _ := compare(rr, got2, fmt.Sprintf("%d instructions", executed2))
+				if serr2 != nil {
+					m2 = "simulation stopped: " + serr2.Error()
+				}
+				if m2 != "" {
+					return finish(pbt.Outcome{Fail: pbt.Failf(sigBehindJe, "register size %d, processor %d (%s), Go simulator with je executed as jump-if-equal (what the compiler means by it): %s\nexpected streams (per output, first 32) %v\nmachine streams  (per output, first 32) %v\n--- source\n%s--- assembly %d\n%s",
+						c.Rsize, k, rr.Func, m2, clip(rr.Streams), clip(got2), c.Src, k, numbered(base.Asm[k]))})
+				}
+				lab("sem:agrees-with-intended-je")
+			}
 			if mismatch != "" {
 				return classify(pbt.Failf(sigSemantics, "register size %d, processor %d (%s), Go simulator: %s\nexpected streams (per output, first 32) %v\nmachine streams  (per output, first 32) %v\n--- source\n%s--- assembly %d\n%s",
 					c.Rsize, k, rr.Func, mismatch, clip(rr.Streams), clip(got), c.Src, k, numbered(base.Asm[k])))
